@@ -4,7 +4,9 @@ import json, os, subprocess
 ROOT = os.path.dirname(os.path.dirname(os.path.abspath(__file__)))
 
 NOTE = ("Trusted: Coq 8.16.1 kernel incl. vm_compute (no native_compute), no axioms (Print Assumptions must say "
-        "'Closed under the global context' on every run); translator tools/goconsts; extraction (ExtrOcamlBasic) + ocaml/driver.ml, "
+        "'Closed under the global context' on every run); translators tools/goconsts (constants, tables, static types) and tools/gotrans "
+        "(Go function bodies of a whitelisted subset -> coq/Gen/Funcs.v, with Lib/GoSem.v; cross-checked against the Go compiler by semtest.sh); "
+        "extraction (ExtrOcamlBasic) + ocaml/driver.ml, "
         "cross-checked by an in-kernel vm_compute sample; the Go correspondence harness. Go function bodies are modelled by hand "
         "(not verified) and tied to /repo by running model and implementation on the same cases on every run. ")
 
@@ -52,9 +54,9 @@ def main():
                    source_commits=hook_commits(), add_only=True),
         engines=[dict(name="rocq-proof+correspondence", path="/verif/check",
                       serves_properties=[c["property_id"] for c in checks],
-                      kind_free_text="Rocq (Coq 8.16.1) theorems about executable Gallina models; models tied to /repo on every run by a regenerating translator (constants/tables/static types) and a differential correspondence run (Go harness vs extracted model, sample re-evaluated in the kernel)")],
+                      kind_free_text="Rocq (Coq 8.16.1) theorems about executable Gallina models; models tied to /repo on every run by regenerating translators (constants/tables/static types; Go function bodies of a whitelisted subset with equivalence lemmas to the hand models) and a differential correspondence run (Go harness vs extracted model, sample re-evaluated in the kernel)")],
         checks=checks,
-        notes="See DESIGN.md. known_findings.txt lists the nine defects repaired by 'fix:' commits in /repo.",
+        notes="See DESIGN.md (section 11: as built). known_findings.txt lists the twelve defects repaired by 'fix:' commits in /repo and one recorded finding (C18). seeded/ holds 80 independently seeded changes with each check's verdict.",
         not_applicable=na)
     json.dump(m, open(os.path.join(ROOT, "MANIFEST.json"), "w"), indent=1)
     print("MANIFEST.json:", len(checks), "checks,", len(na), "not claimed")
